@@ -137,6 +137,12 @@ def corpus(tier):
             yield "vocab", c01.PRELUDE, "begin rr = %s; print rr; exception when others then print \"E\"; end; zz2 = 1;" % e
     for lit in LITERALS:
         yield "literal", "", "v = %s; print v; w2 = v; print typeof(v);" % lit
+    # every string of length <= 2 over the characters that have an escape, the two quotes, and characters that have none
+    SCH = ["\\a", "\\b", "\\f", "\\n", "\\r", "\\t", "\\\\", '\\"', '""', "'", "a", "%", "\x01", "\x7f", "\u00e9"]
+    for l in (0, 1, 2):
+        for t in itertools.product(SCH, repeat=l):
+            lit = '"' + "".join(t) + '"'
+            yield "literal", "", "v = %s; print v strlen(v); w2 = v + v; print w2;" % lit
     for d in c03.dec_lattice(tier):
         if d != d or d in (float("inf"), float("-inf")):
             continue
